@@ -483,6 +483,19 @@ func (L *layoutCtx) segs(v ssa.Value) [][]Seg {
 					return one(Seg{Kind: "const", W: len(b), Bytes: b})
 				}
 			case *ssa.Alloc:
+				// an array variable filled in place (PutUintNN(x[:], v), x[i] = b) and then read whole
+				if _, isArr := derefType(a.Type()).Underlying().(*types.Array); isArr {
+					inPlace := false
+					for _, r := range *a.Referrers() {
+						switch r.(type) {
+						case *ssa.Slice, *ssa.IndexAddr:
+							inPlace = true
+						}
+					}
+					if inPlace {
+						return L.arraySegs(a)
+					}
+				}
 				if val, ok := singleStore(a); ok {
 					return L.segs(val)
 				}
@@ -978,11 +991,25 @@ func (P *Prog) affineLen(v ssa.Value, c *int64, lens *[]string) bool {
 
 // putValue finds the value written by the PutUintNN call that fills the byte slice returned/used.
 func findPutValues(fn *ssa.Function) []ssa.Value {
+	return findPutValuesDepth(fn, 0)
+}
+
+func findPutValuesDepth(fn *ssa.Function, depth int) []ssa.Value {
 	var out []ssa.Value
 	for _, ci := range callsIn(fn) {
 		if putUintWidth(calleeName(ci.Common())) > 0 {
 			a := ci.Common().Args
 			out = append(out, a[len(a)-1])
+		}
+	}
+	if len(out) == 0 && depth < 2 {
+		// the size is computed by a sibling method of the same receiver that this one hands on
+		for _, ci := range callsIn(fn) {
+			h := ci.Common().StaticCallee()
+			if h == nil || h.Blocks == nil || h.Pkg != fn.Pkg || h.Signature.Recv() == nil || fn.Signature.Recv() == nil || len(ci.Common().Args) == 0 || ci.Common().Args[0] != ssa.Value(fn.Params[0]) {
+				continue
+			}
+			out = append(out, findPutValuesDepth(h, depth+1)...)
 		}
 	}
 	return out
